@@ -131,6 +131,43 @@ def make_sync_writer_factory(on_write=None):
     return SyncWriterFactory
 
 
+# The simulated writer stands in for apt_mirror/aiofile.py in most runs (deterministic, hookable).  A share of
+# the runs goes through the tool's own AsyncIOFileFactory instead (it works on the virtual-time loop: completions
+# arrive through the selector), so that the tool's file writer is exercised under the same fault plans; every
+# factory owns a kernel AIO context, hence the budget per process.
+REAL_WRITER = {"left": 36, "used": 0, "unavailable": 0, "forced": 0}
+
+
+def sim_writer_usable() -> bool:
+    """False when the tool's abstract writer base class no longer matches the simulated writer (then every run uses
+    the tool's own factory: the simulated one cannot be built)"""
+    try:
+        make_sync_writer_factory()()
+        return True
+    except TypeError:
+        return False
+
+
+def want_real_writer(key: int, share: int = 4) -> bool:
+    if not sim_writer_usable():
+        REAL_WRITER["forced"] += 1
+        return True
+    return key % share == 0 and REAL_WRITER["left"] > 0
+
+
+async def real_writer_factory(root: Path):
+    """the tool's own file-writer factory, created the way RepositoryMirror.create does (storage self-test included)"""
+    from apt_mirror.aiofile import AsyncIOFileFactory
+    try:
+        f = await AsyncIOFileFactory.create(Path(root) / ".apt_mirror_aio")
+    except (SystemError, OSError):
+        REAL_WRITER["unavailable"] += 1
+        return None
+    REAL_WRITER["left"] -= 1
+    REAL_WRITER["used"] += 1
+    return f
+
+
 # --------------------------------------------------------------------------- upstream
 class Resp:
     """One scripted answer.  kind: ok | missing | error | retry."""
@@ -254,9 +291,13 @@ def make_settings(target_root: Path, upstream: SimUpstream, nthreads=4, url="htt
     from apt_mirror.download.proxy import Proxy
     from apt_mirror.download.slow_rate_protector import SlowRateProtectorFactory
     from apt_mirror.download.url import URL
+    try:
+        writer = make_sync_writer_factory()()
+    except TypeError:      # the tool's writer interface changed: the caller installs the tool's own factory
+        writer = None
     return DownloaderSettings(
         url=URL.from_string(url), target_root_path=target_root,
-        aiofile_factory=make_sync_writer_factory()(),
+        aiofile_factory=writer,
         proxy=Proxy(False, None, None, None, None), http2_disable=False, user_agent="verif",
         semaphore=asyncio.Semaphore(nthreads),
         slow_rate_protector_factory=slow or SlowRateProtectorFactory(False, 15, 1),
